@@ -272,15 +272,16 @@ GenSignalClauses(g, x) == [
                        /\ x.no_recurse = W(g.no_recurse) /\ x.detailed = W(g.detailed) /\ x.action = W(g.action) /\ x.no_hooks = W(g.no_hooks) ]
 GenVFuncClauses(g, x) == [
     GenVFuncOffset  |-> x.offset = g.struct_offset,
-    GenVFuncInvoker |-> x.invoker = g.invoker_name ]
+    GenVFuncInvoker |-> x.invoker = (IF g.invoker = Sentinel THEN "" ELSE NameAt(g.methods, g.invoker)) ]
 
 GenPropertyClauses(g, x) == [
     GenName       |-> x.name = g.name,
     GenDeprecated |-> x.deprecated = W(g.deprecated),
     GenPropFlags  |-> /\ x.readable = (IF g.readable = 1 THEN "" ELSE "0") /\ x.writable = W(g.writable) /\ x.construct = W(g.construct)
                       /\ x.construct_only = W(g.construct_only),
-    GenPropAccessors |-> /\ x.setter = (IF g.writable = 1 /\ g.construct_only = 0 THEN g.setter_name ELSE "")
-                         /\ x.getter = (IF g.readable = 1 THEN g.getter_name ELSE ""),
+    \* g.setter / g.getter = the stored 10-bit indices (Sentinel = none), g.methods = the method names of the container in blob order
+    GenPropAccessors |-> /\ x.setter = (IF g.writable = 1 /\ g.construct_only = 0 /\ g.setter # Sentinel THEN NameAt(g.methods, g.setter) ELSE "")
+                         /\ x.getter = (IF g.readable = 1 /\ g.getter # Sentinel THEN NameAt(g.methods, g.getter) ELSE ""),
     GenPropTransfer |-> x.transfer = TransferWord(g.transfer_ownership, g.transfer_container_ownership),
     GenPropType   |-> GenTypeOK(g.own, x.type, g.type),
     GenAttrs      |-> AttrSeqSet(x.attrs) = AttrSeqSet(g.attrs) ]
@@ -289,7 +290,10 @@ GenPropertyNames == {"GenName", "GenDeprecated", "GenPropFlags", "GenPropAccesso
 GenFieldClauses(g, x) == [
     GenName       |-> x.name = g.name,
     GenFieldFlags |-> x.readable = (IF g.readable = 1 THEN "" ELSE "0") /\ x.writable = W(g.writable) /\ x.bits = (IF g.bits > 0 THEN g.bits ELSE -1),
-    GenFieldType  |-> IF g.has_embedded_type = 1 THEN x.has_callback ELSE (~x.has_callback /\ GenTypeOK(g.own, x.type, g.type)),
+    \* a field whose type REFERS to a named callback is written by g-ir-generate as an inline <callback> of that name: accepted
+    GenFieldType  |-> IF g.has_embedded_type = 1 THEN x.has_callback
+                      ELSE IF x.has_callback THEN (g.type[1].tag = 16 /\ x.cbname = g.type[1].rname)
+                      ELSE GenTypeOK(g.own, x.type, g.type),
     GenAttrs      |-> AttrSeqSet(x.attrs) = AttrSeqSet(g.attrs) ]
 GenFieldNames == {"GenName", "GenFieldFlags", "GenFieldType", "GenAttrs"}
 
